@@ -12,7 +12,7 @@ RULE = (
     "parameter after every M-step is compared with the documented closed form. evaluations = parameter comparisons; distinct_nontrivial = "
     "distinct (model cell, parameter, phase in {memoryless, with-memory}, missing pattern) tuples compared at least once"
 )
-REQUIRED = {"msteps": 300, "cmp_pop_mean": 300, "cmp_ind_mean": 300, "cmp_ind_std_burn_in": 100, "cmp_ind_std_sa": 100,
+REQUIRED = {"fits_on_a_reconfigured_algorithm_object": 10, "msteps": 300, "cmp_pop_mean": 300, "cmp_ind_mean": 300, "cmp_ind_std_burn_in": 100, "cmp_ind_std_sa": 100,
             "cmp_noise_scalar": 50, "cmp_noise_diagonal": 50, "cmp_mixture_probs": 10, "cmp_together": 100, "boundary_iterations_checked": 15, "mixture_steps_with_a_nearly_empty_cluster": 3, "fits_on_an_algorithm_object_already_run_once": 10}
 ASSUMPTIONS = [
     "float32 sums over <= ~500 observations: rtol 2e-4, atol 1e-6",
@@ -247,7 +247,16 @@ def run_shard(spec, ctx):
                     ctx.count("fits_on_an_algorithm_object_already_run_once")
                 except Exception:
                     prerun = None
-            fit_with_probe(model, ds, dict(n_iter=n_iter, n_burn_in_iter=nb, n_burn_in_iter_frac=None, seed=int(rng.integers(1 << 30))), on_step=on_step, prerun=prerun)
+            nb_built, reconf = nb, None
+            if (spec["k"] + i) % 4 == 1:
+                # the algorithm object is built with another length of the memory-less phase and reconfigured through the documented
+                # `load_parameters` before it runs: the phase of every iteration is the one of the parameters in force
+                nb_built = [v for v in (n_iter, 0, n_iter // 3) if v != nb][0]
+                reconf = {"n_burn_in_iter": nb}
+                case["algorithm_built_with_n_burn_in_iter"] = nb_built
+                ctx.count("fits_on_a_reconfigured_algorithm_object")
+            fit_with_probe(model, ds, dict(n_iter=n_iter, n_burn_in_iter=nb_built, n_burn_in_iter_frac=None, seed=int(rng.integers(1 << 30))), on_step=on_step, prerun=prerun,
+                           reconfigure=reconf)
         except LeaspyConvergenceError:
             ctx.count("fit_aborted_by_convergence_guard")
         except Exception as e:
